@@ -374,7 +374,132 @@ def table_rlim_export():
     return out
 
 
-TABLES = [table_gids_class, table_bsd_slots, table_rlim_export]
+# --- "the package exposes for that platform the function ... names its documentation promises" ---------------------------
+# docs/index.rst says for each optional module-level function on which platforms it is available; psutil/__init__.py
+# defines them under `if hasattr(_psplatform, ...)` / `if WINDOWS:` tests.  For every platform the tests are evaluated
+# (CPython, the real AST nodes) against a stand-in platform module that has exactly the top-level names of that platform's
+# module under that platform's flags; `os` has getloadavg everywhere but on Windows.  Exhaustive over documented function x
+# platform pairs; only "promised => exposed" is demanded.
+PLAT = {   # platform -> (module file, flags)
+    "Linux": ("psutil/_pslinux.py", {"LINUX": True}),
+    "Windows": ("psutil/_pswindows.py", {"WINDOWS": True}),
+    "macOS": ("psutil/_psosx.py", {"MACOS": True, "OSX": True}),
+    "FreeBSD": ("psutil/_psbsd.py", {"FREEBSD": True, "BSD": True}),
+    "OpenBSD": ("psutil/_psbsd.py", {"OPENBSD": True, "BSD": True}),
+    "NetBSD": ("psutil/_psbsd.py", {"NETBSD": True, "BSD": True}),
+    "SunOS": ("psutil/_pssunos.py", {"SUNOS": True}),
+    "AIX": ("psutil/_psaix.py", {"AIX": True}),
+}
+ALLFLAGS = ["LINUX", "WINDOWS", "MACOS", "OSX", "FREEBSD", "OPENBSD", "NETBSD", "BSD", "SUNOS", "AIX", "POSIX"]
+ALIAS = {"unix": [p for p in PLAT if p != "Windows"], "bsd": ["FreeBSD", "OpenBSD", "NetBSD"], "solaris": ["SunOS"],
+         "sunos": ["SunOS"], "osx": ["macOS"]}
+
+
+def doc_availability():
+    out = {}
+    cur = None
+    for ln in open(os.path.join(REPO, "docs/index.rst")):
+        m = re.match(r"^\.\. (function|method|class|data|attribute)::\s*([\w.]+)", ln)
+        if m:
+            cur = m.group(2) if m.group(1) == "function" else None
+            continue
+        if re.match(r"^\S", ln) and not ln.startswith(".."):
+            cur = None if re.match(r"^[=\-~^]{3,}", ln) else cur
+        m = re.match(r"^\s+Availability:\s*(.*)", ln)
+        if m and cur:
+            first = m.group(1).split(".")[0]
+            plats = []
+            for tok in first.split(","):
+                t = tok.strip().split()[0].lower() if tok.strip() else ""
+                for p in PLAT:
+                    if p.lower() == t:
+                        plats.append(p)
+                plats += ALIAS.get(t, [])
+            out.setdefault(cur, set()).update(plats)
+    return out
+
+
+def module_names(rel, flags):
+    env = {f: False for f in ALLFLAGS}
+    env.update(flags)
+    env["POSIX"] = not flags.get("WINDOWS", False)
+    names = set()
+
+    def walk(body):
+        for st in body:
+            if isinstance(st, (ast.FunctionDef, ast.ClassDef)):
+                names.add(st.name)
+            elif isinstance(st, ast.Assign):
+                for t in st.targets:
+                    for n in ast.walk(t):
+                        if isinstance(n, ast.Name):
+                            names.add(n.id)
+            elif isinstance(st, ast.If):
+                try:
+                    v = eval(compile(ast.Expression(st.test), "<g>", "eval"), {"__builtins__": {}}, dict(env))
+                except Exception:
+                    v = None
+                if v is None or v:
+                    walk(st.body)
+                if v is None or not v:
+                    walk(st.orelse)
+            elif isinstance(st, (ast.Try, ast.With)):
+                walk(st.body)
+    walk(ast.parse(open(os.path.join(REPO, rel)).read()).body)
+    return names
+
+
+def exported(plat):
+    rel, flags = PLAT[plat]
+    names = module_names(rel, flags)
+    import types
+    stub = types.SimpleNamespace(**{n: object() for n in names})
+    if "Process" in names:
+        stub.Process = type("Process", (), {})
+    osstub = types.SimpleNamespace()
+    if plat != "Windows":
+        osstub.getloadavg = lambda: (0, 0, 0)
+    env = {f: False for f in ALLFLAGS}
+    env.update(flags)
+    env["POSIX"] = plat != "Windows"
+    env.update(_psplatform=stub, os=osstub, hasattr=hasattr)
+    out = set()
+    tree = ast.parse(open(os.path.join(REPO, "psutil/__init__.py")).read())
+    for st in tree.body:
+        if isinstance(st, ast.FunctionDef):
+            out.add(st.name)
+        if isinstance(st, ast.If):
+            try:
+                v = eval(compile(ast.Expression(st.test), "<t>", "eval"), {"__builtins__": {}}, dict(env))
+            except Exception:
+                continue
+            body = st.body if v else st.orelse
+            for n in body:
+                if isinstance(n, ast.FunctionDef):
+                    out.add(n.name)
+                for c in ast.walk(n):
+                    if isinstance(c, ast.Call) and ast.unparse(c.func) in ("__all__.append", "__all__.extend"):
+                        for a in ast.walk(c):
+                            if isinstance(a, ast.Constant) and isinstance(a.value, str):
+                                out.add(a.value)
+    return out
+
+
+
+def table_conditional_api():
+    out = []
+    doc = doc_availability()
+    out.append(("docs/index.rst availability notes parsed", len(doc) >= 5, str(sorted(doc))))
+    cache = {}
+    for fn, plats in sorted(doc.items()):
+        for pl in sorted(plats):
+            if pl not in cache:
+                cache[pl] = exported(pl)
+            out.append((f"psutil.{fn} is exposed on {pl} (documented there)", fn in cache[pl], "not defined / not exported"))
+    return out
+
+
+TABLES = [table_gids_class, table_bsd_slots, table_rlim_export, table_conditional_api]
 
 
 # ---------------------------------------------------------------------------------------------------------------
@@ -456,3 +581,45 @@ REGISTRY.add(Contract(
              "implies(fault != 'none', result.rss == info[slot['wset']] and result.vms == info[slot['pagefile']])"],
     raises={}, canaries=["result.rss == result.vms"], replay=None,
     note="pmem filled from PROCESS_MEMORY_COUNTERS, or - when that call is denied - from the matching proc_info() slots"))
+
+
+# --- _psbsd.wrap_exceptions_procfs (NetBSD: routines reading /proc) through Process.exe --------------------------------------
+# the context manager is executed by the engine (generator split at its yield, the fault thrown in at that point)
+
+def setup_procfs_exe(it, cfg):
+    mod = ModuleSrc.get(MODS["bsd"])
+    pid = it.fresh("pid", "Int")
+    it.assume(smt.Cmp(">", pid, I(0)))
+    name, ppid = Opaque("cached_name"), Opaque("cached_ppid")
+    o = Obj("Process", {"pid": pid, "_name": name, "_ppid": ppid}, module=mod)
+    zombie = it.fresh("zombie_test", "Bool")
+    fault = cfg["fault"]
+    target = Opaque("link_target")
+
+    def readlink(it2, path, *a, **k):
+        raise_fault(it2, fault)
+        return target
+
+    m = mod.name
+    it.env_over[f"{m}.is_zombie"] = EnvFunc("is_zombie", lambda it2, p: zombie)
+    it.env_over["os.readlink"] = EnvFunc("readlink", readlink)
+    it.env_over[f"{m}.pids"] = EnvFunc("pids", lambda it2: ZeroList(B(False)))
+    return {"args": {"self": o}, "spec": {"fault": fault, "zombie": zombie, "name": name, "ppid": ppid, "target": target},
+            "values": [zombie]}
+
+
+REGISTRY.add(Contract(
+    "C20", MODS["bsd"], "Process.exe", name="bsd.Process.exe[NETBSD] (wrap_exceptions_procfs)", setup=setup_procfs_exe,
+    env=flags_env(NETBSD=True, BSD=True, POSIX=True), decorated=True,
+    configs=[{"fault": f} for f in FAULTS if f != "ValueError"],
+    ensures=["fault == 'none'", "result is target"],
+    raises={
+        "ZombieProcess": ["fault in ('ESRCH', 'ENOENT')", "zombie", "exc.pid == self.pid", "exc.name is name",
+                          "exc.ppid is ppid"],
+        "NoSuchProcess": ["fault in ('ESRCH', 'ENOENT')", "not zombie", "exc.pid == self.pid", "exc.name is name"],
+        "AccessDenied": ["fault in ('EPERM', 'EACCES')", "exc.pid == self.pid", "exc.name is name"],
+        "OSError": ["fault in ('EIO', 'EINVAL')"],
+    },
+    canaries=[], replay=None,
+    note="/proc-reading routines on NetBSD: ENOENT/ESRCH -> NoSuchProcess or ZombieProcess, EPERM/EACCES -> AccessDenied, "
+         "carrying the pid, the cached name (and the cached ppid for zombies)"))
